@@ -127,6 +127,16 @@ package transport
 //@   site DialTimeout#0 assert [C09] $2 == c.dialTimeout
 //@   sites Dial = 2
 //
+// Graceful shutdown (C10: a request that is being executed still gets its answer): the sweep over the connections
+// closes one only when it has loaded a zero count of running invocations for it (ghost gni: the count it loaded).
+//@ func (*tcpHandler).CloseIdles$1
+//@   noframe
+//@   allocates
+//@   site LoadInt32#1 assert [C10] $0 == addr(conn.numInvoke)
+//@   site LoadInt32#1 ghostafter conn.gni = $ret
+//@   site Close#0 assert [C10] conn.gni <= 0
+//@   sites Close = 1
+//
 // ------------------------------------------------------------------ what reaches the protocol's Invoke (property C05)
 // The Tars implementation of ServerProtocol slices off the 4-byte length prefix (req[4:], under contract in
 // package tars with the precondition len(req) >= 4), and a panic there ends the process (CheckPanic dumps the
